@@ -135,7 +135,13 @@ Definition read_value (t:vty) (s:bytes) : res (val * bytes) :=
 (* Nodes are numbered in an order where dependencies come first (index = identity).
    NFixed : not needsSampling -> nothing written.
    NPrim t: non-_deterministic Distribution of valueType t -> its sampled value is written.
-   NDet ds: deterministic Distribution / any other Samplable -> recurse into dependencies.
+   NDet es ds: deterministic Distribution / any other Samplable (Object, ...) -> recurse into dependencies.
+       Two lists, because the code reads the dependency list at two places: [es] is the list
+       Samplable.serializeValue walks (the dependencies of the CONDITIONED PROXY, self._conditioned, which
+       Scenario.conditionOn and pruning replace), [ds] the list Samplable.deserializeValue walks.  Round-trip
+       needs them to be the same list (conditioned_consistent, SampleProofs.v); the exporter observes each
+       walk separately.  Primitive and multiplexer nodes ignore the proxy (they write their own value /
+       index + chosen option).
    NMux i os: MultiplexerDistribution: index then only the chosen option.
    Primitive values are stored in the sample map sigma; a mux needs the *integer value* of its
    index node, which may itself be deterministic; [ival] gives it from the sample (an oracle
@@ -143,7 +149,7 @@ Definition read_value (t:vty) (s:bytes) : res (val * bytes) :=
 Inductive node :=
 | NFixed
 | NPrim (t:vty)
-| NDet (deps:list nat)
+| NDet (edeps:list nat) (ddeps:list nat)
 | NMux (idx:nat) (opts:list nat).
 
 Notation dag := (list node) (only parsing).
@@ -180,7 +186,7 @@ Fixpoint enc_node (fuel:nat) (i:nat) (sn:seen) : option (bytes * seen) :=
     let sn := i :: sn in
     match nth_error g i with
     | Some (NPrim t) => match write_value t (pval i) with Some b => Some (b, sn) | None => None end
-    | Some (NDet ds) =>
+    | Some (NDet ds _) =>
         fold_left (fun acc d => match acc with
                                 | Some (b, s) => match enc_node fuel' d s with
                                                  | Some (b', s') => Some (b ++ b', s')
@@ -238,7 +244,7 @@ Fixpoint dec_node (fuel:nat) (i:nat) (st:seen * penv * bytes) : res (seen * penv
   else
     match nth_error g i with
     | Some (NPrim t) => dop v, r <- read_value t s; OK (i :: sn, (i, v) :: pe, r)
-    | Some (NDet ds) =>
+    | Some (NDet _ ds) =>
         do st' <- fold_left (fun acc d => do a <- acc; dec_node fuel' d a) ds (OK (sn, pe, s));
         let '(sn', pe', s') := st' in OK (i :: sn', pe', s')
     | Some (NMux ix os) =>
@@ -262,6 +268,28 @@ Definition dec_sample (deps:list nat) (s:bytes) : res (penv * bytes) :=
   do st <- fold_left (fun acc d => do a <- acc; dec_node (S (length g)) d a) deps (OK ([], [], s));
   let '(_, pe, r) := st in OK (pe, r).
 End Decode.
+
+(* ---------- conditioning (Samplable.conditionTo: Scenario.conditionOn, pruning) ---------- *)
+(* A samplable as constructed ([c_own], own dependency list in both positions of NDet) together with the
+   dependency list of its conditioned proxy, [Some value._dependencies] after conditionTo(value).
+   [view ef df] = the node the codec walks when the encoder (ef) / the decoder (df) follow the proxy.
+   The code as it is: Samplable.serializeValue and Samplable.deserializeValue both iterate
+   self._conditioned._dependencies; non-deterministic Distributions and MultiplexerDistributions override
+   both methods and never look at the proxy. *)
+Record cnode := { c_own : node; c_proxy : option (list nat) }.
+Definition follow (c:cnode) (own:list nat) : list nat :=
+  match c_proxy c with Some p => p | None => own end.
+Definition view (ef df:bool) (c:cnode) : node :=
+  match c_own c with
+  | NDet own _ => NDet (if ef then follow c own else own) (if df then follow c own else own)
+  | n => n
+  end.
+Definition code_view : cnode -> node := view true true.
+Definition condition_to (i:nat) (p:list nat) (cg:list cnode) : list cnode :=
+  let fix go (k:nat) (l:list cnode) := match l with
+    | [] => []
+    | c :: t => (if Nat.eqb k i then {| c_own := c_own c; c_proxy := Some p |} else c) :: go (S k) t end
+  in go O cg.
 
 (* ---------- scene header ---------- *)
 Record header := { h_version : Z; h_ast : bytes; h_opts : bytes }.
